@@ -19,6 +19,17 @@
 (* separately over `asked`, the list of calls in call order, and is what     *)
 (* the invariants compare the implementation-shaped variables with.          *)
 (*                                                                           *)
+(* Env = TRUE adds the environment and the rest of the object's life to the  *)
+(* histories: reads that end in TIMEOUT or EOF between the sends, a peer     *)
+(* that shuts its output side down and keeps reading, a peer that goes away, *)
+(* the caller closing the object, a peer that stops reading while a socket   *)
+(* with a user timeout sends more than the buffers hold (send-family calls   *)
+(* that FAIL, completely or part-way).  Aw = TRUE adds awaited reads on an   *)
+(* asyncio transport: calls that are cancelled from outside or time out, and *)
+(* child output that arrives while no call is waiting.                       *)
+(*   <<"part", w>>     a proper prefix of the encoded items w (a write that  *)
+(*                     failed part-way)                                      *)
+(*                                                                           *)
 (* History = TRUE : the variables hold the whole history (sequence-level     *)
 (*                  properties, bounded by MaxOps).                          *)
 (* History = FALSE: they hold the effect of the last operation only, the     *)
@@ -39,6 +50,9 @@ CONSTANTS Transport,    \* "pty" | "fd" | "popen" | "socket"
           Modes,        \* subset of {"bytes", "utf8", "utf16"}
           LogCfgs,      \* set of subsets of {"all", "read", "send"}
           MaxOps, History,
+          Env,          \* TRUE: reads ending in TIMEOUT / EOF, peer half-closed / gone, object closed, failing sends
+          Aw,           \* TRUE: awaited reads (asyncio transport), cancellation, output arriving between two calls
+          MaxCarry,     \* Aw: bound on child output that is in flight between two calls
           Bug           \* "none", or one of the model's own mutants (sensitivity)
 
 VARIABLES mode, logcfg,         \* fixed per behaviour
@@ -52,15 +66,26 @@ VARIABLES mode, logcfg,         \* fixed per behaviour
           logSend, logRead, logAll,
           writes, flushes,      \* per log: number of write() / flush() calls
           delivered,            \* child output handed to matching / the caller
-          ret                   \* what the last call returned
+          ret,                  \* what the last call returned
+          \* ---- Env ----
+          link,                 \* "up" | "gone" (the peer closed / exited) | "closed" (the caller closed the object)
+          outOpen,              \* the peer's output side is open (FALSE once it shut it down and a read reported EOF)
+          sockTmo,              \* socket transport: the socket's own timeout as handed over: "none" | "user"
+          implShut,             \* mutants only: the object broke its own sending side: "no" | "nonblock" | "closed"
+          rd,                   \* asyncio read transport of the awaited calls: "none" | "reading" | "paused"
+          kq,                   \* child output that has arrived and was not yet taken in by the object
+          pend,                 \* text taken in (buffer / before) and not yet handed to a caller
+          kq0, pend0            \* kq / pend at the start of the retained window
 
+envvars == <<link, outOpen, sockTmo, implShut, rd, kq, pend, kq0, pend0>>
 vars == <<mode, logcfg, phase, peerOpen, encBom, bom0, nops, asked, peerGot, userGot, logSend, logRead, logAll,
-          writes, flushes, delivered, ret>>
+          writes, flushes, delivered, ret, envvars>>
 
 LogNames == {"all", "read", "send"}
 ApiType  == IF mode = "bytes" THEN "bytes" ELSE "str"
 N        == IF History THEN nops + 1 ELSE 1
 None     == [k |-> "none", items |-> <<>>]
+Raised   == [k |-> "raised", items |-> <<>>]
 Count(items) == [k |-> "count", items |-> items]
 Zero     == [l \in LogNames |-> 0]
 
@@ -69,7 +94,9 @@ Zero     == [l \in LogNames |-> 0]
 Cur == [peer |-> IF History THEN peerGot ELSE <<>>, ls |-> IF History THEN logSend ELSE <<>>,
         lr |-> IF History THEN logRead ELSE <<>>, la |-> IF History THEN logAll ELSE <<>>,
         w |-> IF History THEN writes ELSE Zero, f |-> IF History THEN flushes ELSE Zero,
-        enc |-> encBom, out |-> <<>>]
+        enc |-> encBom, out |-> <<>>,
+        lgd |-> <<>>,        \* ghost: items this call handed to _log(., "send")
+        tk  |-> <<>>]        \* ghost: child output this call took into the object's buffer
 
 Entries(d, items, ty) == [i \in 1..Len(items) |-> [d |-> d, it |-> items[i], ty |-> ty]]
 
@@ -83,6 +110,7 @@ Log(S, d, items, ty) ==
   IN [S EXCEPT !.la = IF toAll THEN @ \o e ELSE @,
                !.ls = IF to2 /\ d = "send" THEN @ \o e ELSE @,
                !.lr = IF to2 /\ d = "read" THEN @ \o e ELSE @,
+               !.lgd = IF d = "send" THEN @ \o items ELSE @,
                !.w  = [l \in LogNames |-> @[l] + (IF (l = "all" /\ toAll) \/ (l = second /\ to2) THEN 1 ELSE 0)],
                !.f  = [l \in LogNames |-> @[l] + fl(IF (l = "all" /\ toAll) \/ (l = second /\ to2) THEN 1 ELSE 0)]]
 
@@ -94,96 +122,211 @@ SendStep(S, items) ==
       wr  == b \o items
   IN [S1 EXCEPT !.peer = @ \o wr, !.enc = @ \/ mode = "utf16", !.out = @ \o wr]
 
-RECURSIVE SendEach(_, _, _)
-SendEach(S, n, ps) ==       \* writelines: one send per element
-  IF ps = <<>> THEN S
-  ELSE LET j == Len(ps) IN SendStep(SendEach(S, n, SubSeq(ps, 1, j - 1)), <<<<"t", n, j, ps[j]>>>>)
-
 Sep(n) == IF Bug = "sep2" THEN <<<<"sep", n>>, <<"sep", n>>>> ELSE <<<<"sep", n>>>>
 
-SendLineSteps(S, n, p) ==
-  IF Transport = "popen"
-  THEN SendStep(SendStep(S, <<<<"t", n, 1, p>>>>), Sep(n))           \* n = send(s); n + send(linesep)
-  ELSE SendStep(S, <<<<"t", n, 1, p>>>> \o Sep(n))                     \* send(s + linesep)
+\* the underlying send() calls of one send-family call, in order: each is one coerce-log-encode-write
+Pieces(op, n, ps) ==
+  CASE op \in {"send", "write"} -> << <<<<"t", n, 1, ps[1]>>>> >>
+    [] op = "sendline" -> IF Transport = "popen"
+                          THEN << <<<<"t", n, 1, ps[1]>>>>, Sep(n) >>             \* n = send(s); n + send(linesep)
+                          ELSE << <<<<"t", n, 1, ps[1]>>>> \o Sep(n) >>          \* send(s + linesep)
+    [] op = "writelines" -> [j \in 1..Len(ps) |-> <<<<"t", n, j, ps[j]>>>>]       \* one send per element
+
+\* a send() whose write fails: logged like any other, then nothing (part = "none") or a proper prefix
+\* (part = "some") of the encoded text reaches the peer and the exception goes to the caller
+FailStep(S, items, part) ==
+  LET ty  == IF Bug = "logencoded" THEN "bytes" ELSE ApiType
+      S1  == IF Bug = "logafterwrite" THEN S ELSE Log(S, "send", items, ty)
+      b   == IF mode = "utf16" /\ ~S1.enc THEN <<<<"bom">>>> ELSE <<>>
+      wr  == IF part = "some" THEN << <<"part", b \o items>> >> ELSE <<>>
+  IN [S1 EXCEPT !.peer = @ \o wr, !.enc = @ \/ mode = "utf16", !.out = @ \o wr]
+
+RECURSIVE DoPieces(_, _, _, _, _)
+DoPieces(S, pcs, i, failAt, part) ==
+  IF i > Len(pcs) THEN S
+  ELSE IF i = failAt THEN FailStep(S, pcs[i], part)                    \* the rest of the call does not happen
+  ELSE DoPieces(SendStep(S, pcs[i]), pcs, i + 1, failAt, part)
+
+IsBig(piece) == \E i \in 1..Len(piece) : piece[i][1] = "t" /\ piece[i][4] = "big"
+FirstBig(pcs) == IF \E i \in 1..Len(pcs) : IsBig(pcs[i]) THEN CHOOSE i \in 1..Len(pcs) : IsBig(pcs[i]) /\ \A j \in 1..(i - 1) : ~IsBig(pcs[j]) ELSE 0
+\* how a send-family call ends: <<kind, index of the failing send(), how much of it was written>>
+Outcome(pcs, stalled) ==
+  IF pcs = <<>> THEN <<"no", 0, "none">>
+  ELSE IF link = "gone" THEN <<"gone", 1, "none">>                       \* EPIPE / ECONNRESET
+  ELSE IF link = "closed" \/ ~peerOpen THEN <<"closed", 1, "none">>      \* EBADF / closed file
+  ELSE IF implShut = "closed" THEN <<"spurious", 1, "none">>
+  ELSE IF implShut = "nonblock" /\ FirstBig(pcs) > 0 THEN <<"spurious", FirstBig(pcs), "some">>
+  ELSE IF stalled /\ FirstBig(pcs) > 0 THEN <<"stalled", FirstBig(pcs), "some">>   \* the user's timeout expires in sendall
+  ELSE <<"no", 0, "none">>
 
 \* sendcontrol / sendeof / sendintr on a pty: ptyprocess writes the byte, then _log_control logs it decoded
 ControlSteps(S, n, name) ==
   LET S1 == IF Bug = "ctlnotsent" THEN S ELSE [S EXCEPT !.peer = @ \o <<<<"c", n, name>>>>, !.out = @ \o <<<<"c", n, name>>>>]
   IN Log(S1, "send", <<<<"c", n, name>>>>, ApiType)
 
-ReadSteps(S, n, p) == IF Bug = "readnotlogged" THEN S ELSE Log(S, "read", <<<<"o", n, p>>>>, ApiType)
+\* the read path: what was read goes into the object's buffer (ghost tk) and is logged, decoded
+TakeIn(S, items) ==
+  IF items = <<>> THEN S
+  ELSE LET S1 == [S EXCEPT !.tk = @ \o items] IN IF Bug = "readnotlogged" THEN S1 ELSE Log(S1, "read", items, ApiType)
+ReadSteps(S, n, p) == TakeIn(S, <<<<"o", n, p>>>>)
 
 Commit(S, a, r, dl, ug) ==
   /\ peerGot' = S.peer /\ logSend' = S.ls /\ logRead' = S.lr /\ logAll' = S.la
   /\ writes' = S.w /\ flushes' = S.f /\ encBom' = S.enc
   /\ ret' = r
-  /\ asked' = IF History THEN Append(asked, a) ELSE <<a>>
+  /\ LET a2 == [a EXCEPT !.lg = S.lgd, !.rch = S.out, !.tk = S.tk, !.dl = dl]
+     IN asked' = IF History THEN Append(asked, a2) ELSE <<a2>>
   /\ bom0' = IF History THEN bom0 ELSE encBom
+  /\ kq0' = IF History THEN kq0 ELSE kq
+  /\ pend0' = IF History THEN pend0 ELSE pend
+  /\ UNCHANGED <<sockTmo>>
   /\ nops' = IF History THEN nops + 1 ELSE nops
   /\ delivered' = IF History THEN delivered \o dl ELSE dl
   /\ userGot' = IF History THEN userGot \o ug ELSE ug
   /\ UNCHANGED <<mode, logcfg>>
 
-Call(op, ps, c) == [op |-> op, n |-> N, ps |-> ps, c |-> c]
-CanSend == phase = "normal" /\ peerOpen /\ nops < MaxOps
+Call(op, ps, c) == [op |-> op, n |-> N, ps |-> ps, c |-> c, fail |-> "no", lg |-> <<>>, rch |-> <<>>, tk |-> <<>>, dl |-> <<>>]
+LinkUp  == link = "up"
+CanSend == phase = "normal" /\ (peerOpen \/ Env) /\ (LinkUp \/ Env) /\ nops < MaxOps
+NoEnvChange == UNCHANGED <<link, outOpen, implShut, rd, kq, pend>>
+
+\* a send-family call: its send()s one after the other, up to the one that fails (if any)
+DoSend(op, ps, stalled) ==
+  LET pcs == Pieces(op, N, ps)
+      oc  == Outcome(pcs, stalled)
+      S   == DoPieces(Cur, pcs, 1, oc[2], oc[3])
+      r   == IF oc[1] # "no" THEN Raised ELSE IF op \in {"send", "sendline"} THEN Count(S.out) ELSE None
+  IN Commit(S, [Call(op, ps, "") EXCEPT !.fail = oc[1]], r, <<>>, <<>>)
 
 Send(p) ==
-  /\ CanSend
-  /\ LET S == SendStep(Cur, <<<<"t", N, 1, p>>>>) IN Commit(S, Call("send", <<p>>, ""), Count(S.out), <<>>, <<>>)
-  /\ UNCHANGED <<phase, peerOpen>>
+  /\ CanSend /\ DoSend("send", <<p>>, FALSE)
+  /\ UNCHANGED <<phase, peerOpen>> /\ NoEnvChange
 SendLine(p) ==
-  /\ CanSend
-  /\ LET S == SendLineSteps(Cur, N, p) IN Commit(S, Call("sendline", <<p>>, ""), Count(S.out), <<>>, <<>>)
-  /\ UNCHANGED <<phase, peerOpen>>
+  /\ CanSend /\ DoSend("sendline", <<p>>, FALSE)
+  /\ UNCHANGED <<phase, peerOpen>> /\ NoEnvChange
 Write(p) ==
-  /\ CanSend
-  /\ LET S == SendStep(Cur, <<<<"t", N, 1, p>>>>) IN Commit(S, Call("write", <<p>>, ""), None, <<>>, <<>>)
-  /\ UNCHANGED <<phase, peerOpen>>
+  /\ CanSend /\ DoSend("write", <<p>>, FALSE)
+  /\ UNCHANGED <<phase, peerOpen>> /\ NoEnvChange
 WriteLines(ps) ==
-  /\ CanSend
-  /\ LET S == SendEach(Cur, N, ps) IN Commit(S, Call("writelines", ps, ""), None, <<>>, <<>>)
-  /\ UNCHANGED <<phase, peerOpen>>
+  /\ CanSend /\ DoSend("writelines", ps, FALSE)
+  /\ UNCHANGED <<phase, peerOpen>> /\ NoEnvChange
+\* socket with a user timeout, the peer does not read, the payload exceeds the buffers: sendall() gives up part-way
+Stalled(op, p) ==
+  /\ Env /\ Transport = "socket" /\ sockTmo = "user" /\ CanSend /\ LinkUp /\ p = "big"
+  /\ DoSend(op, IF op = "writelines" THEN <<"ascii", p>> ELSE <<p>>, TRUE)
+  /\ UNCHANGED <<phase, peerOpen>> /\ NoEnvChange
 SendControl(c) ==
-  /\ CanSend /\ Transport = "pty"
+  /\ CanSend /\ Transport = "pty" /\ LinkUp
   /\ LET S == ControlSteps(Cur, N, c) IN Commit(S, Call("control", <<>>, c), Count(S.out), <<>>, <<>>)
-  /\ UNCHANGED <<phase, peerOpen>>
+  /\ UNCHANGED <<phase, peerOpen>> /\ NoEnvChange
 SendEof ==
-  /\ CanSend /\ Transport \in {"pty", "popen"}
+  /\ CanSend /\ Transport \in {"pty", "popen"} /\ LinkUp /\ peerOpen /\ (Env \/ Aw => Transport = "popen")
   /\ IF Transport = "pty"
      THEN /\ LET S == ControlSteps(Cur, N, "eof") IN Commit(S, Call("eof", <<>>, "eof"), None, <<>>, <<>>)
           /\ UNCHANGED peerOpen
      ELSE /\ Commit(Cur, Call("eof", <<>>, "eof"), None, <<>>, <<>>)       \* popen: closes the child's stdin, writes nothing
           /\ peerOpen' = FALSE
-  /\ UNCHANGED phase
+  /\ UNCHANGED phase /\ NoEnvChange
 SendIntr ==
-  /\ CanSend /\ Transport = "pty"
+  /\ CanSend /\ Transport = "pty" /\ LinkUp /\ ~Env /\ ~Aw
   /\ LET S == ControlSteps(Cur, N, "intr") IN Commit(S, Call("intr", <<>>, "intr"), None, <<>>, <<>>)
-  /\ UNCHANGED <<phase, peerOpen>>
-ReadDelivered(p) ==        \* the child wrote p; a read delivered it to matching and the caller
-  /\ phase = "normal" /\ nops < MaxOps
-  /\ LET S == ReadSteps(Cur, N, p) IN Commit(S, Call("read", <<p>>, ""), None, <<<<"o", N, p>>>>, <<>>)
-  /\ UNCHANGED <<phase, peerOpen>>
+  /\ UNCHANGED <<phase, peerOpen>> /\ NoEnvChange
+CanRead == phase = "normal" /\ nops < MaxOps /\ LinkUp /\ outOpen /\ kq = <<>>
+ReadDelivered(p) ==        \* the child wrote p; a (blocking) read delivered it to matching and the caller
+  /\ CanRead
+  /\ LET S == ReadSteps(Cur, N, p) IN Commit(S, Call("read", <<p>>, ""), None, pend \o <<<<"o", N, p>>>>, <<>>)
+  /\ pend' = <<>>
+  /\ UNCHANGED <<phase, peerOpen, link, outOpen, implShut, rd, kq>>
 EnterInteract ==
   /\ phase = "normal" /\ Transport = "pty" /\ nops < MaxOps
-  /\ phase' = "interact" /\ Commit(Cur, Call("enter", <<>>, ""), None, <<>>, <<>>) /\ UNCHANGED peerOpen
+  /\ ~Env /\ ~Aw
+  /\ phase' = "interact" /\ Commit(Cur, Call("enter", <<>>, ""), None, <<>>, <<>>) /\ UNCHANGED peerOpen /\ NoEnvChange
 ExitInteract ==            \* the user types the escape character: not sent, not logged
   /\ phase = "interact"
-  /\ phase' = "normal" /\ Commit(Cur, Call("exit", <<>>, ""), None, <<>>, <<>>) /\ UNCHANGED peerOpen
+  /\ phase' = "normal" /\ Commit(Cur, Call("exit", <<>>, ""), None, <<>>, <<>>) /\ UNCHANGED peerOpen /\ NoEnvChange
 InteractCopyOut(p) ==      \* child output copied to the user's terminal
   /\ phase = "interact" /\ nops < MaxOps
   /\ LET S == ReadSteps(Cur, N, p) IN Commit(S, Call("copyout", <<p>>, ""), None, <<>>, <<<<"o", N, p>>>>)
-  /\ UNCHANGED <<phase, peerOpen>>
+  /\ UNCHANGED <<phase, peerOpen>> /\ NoEnvChange
 InteractCopyIn(p) ==       \* keystrokes copied to the child, unchanged
   /\ phase = "interact" /\ nops < MaxOps
   /\ LET S1 == Log(Cur, "send", <<<<"k", N, p>>>>, ApiType)
          S  == [S1 EXCEPT !.peer = @ \o <<<<"k", N, p>>>>, !.out = @ \o <<<<"k", N, p>>>>]
      IN Commit(S, Call("copyin", <<p>>, ""), None, <<>>, <<>>)
-  /\ UNCHANGED <<phase, peerOpen>>
+  /\ UNCHANGED <<phase, peerOpen>> /\ NoEnvChange
+
+(* ---------------- Env: the rest of the object's life --------------------- *)
+\* a blocking read (expect([TIMEOUT, ..], timeout=t) / read_nonblocking(n, t)) that ends in TIMEOUT: nothing arrives
+ReadTimeout(t) ==
+  /\ (Env \/ Aw) /\ CanRead
+  /\ Commit(Cur, Call("rtimeout", <<>>, t), None, <<>>, <<>>)
+  /\ implShut' = IF Bug = "tmoleak" /\ Transport = "socket" /\ sockTmo = "none" THEN "nonblock" ELSE implShut
+  /\ UNCHANGED <<phase, peerOpen, link, outOpen, rd, kq, pend>>
+\* the peer shuts its output side down and keeps reading; a blocking read reports EOF (and hands out what was pending)
+HalfCloseEof ==
+  /\ Env /\ CanRead /\ Transport \in {"popen", "fd", "socket"}
+  /\ Commit(Cur, Call("reof", <<>>, ""), None, pend, <<>>)
+  /\ outOpen' = FALSE /\ pend' = <<>>
+  /\ implShut' = IF Bug = "eofclosesstdin" /\ Transport = "popen" THEN "closed" ELSE implShut
+  /\ UNCHANGED <<phase, peerOpen, link, rd, kq>>
+\* the peer goes away (closes the connection / exits); a pty master still accepts writes then, so: not on a pty
+PeerGone ==
+  /\ Env /\ phase = "normal" /\ nops < MaxOps /\ LinkUp /\ kq = <<>> /\ Transport \in {"popen", "fd", "socket"}
+  /\ Commit(Cur, Call("gone", <<>>, ""), None, <<>>, <<>>)
+  /\ link' = "gone"
+  /\ UNCHANGED <<phase, peerOpen, outOpen, implShut, rd, kq, pend>>
+\* the caller closes the object (PopenSpawn has no close(): sendeof() closes its sending side)
+CloseSelf ==
+  /\ Env /\ phase = "normal" /\ nops < MaxOps /\ LinkUp /\ kq = <<>> /\ Transport # "popen"
+  /\ Commit(Cur, Call("close", <<>>, ""), None, <<>>, <<>>)
+  /\ link' = "closed"
+  /\ UNCHANGED <<phase, peerOpen, outOpen, implShut, rd, kq, pend>>
+
+\* awaited calls (expect(..., async_=True)): PatternWaiter on an asyncio read transport
+AsyncOK == Aw /\ Transport \in {"pty", "fd", "socket"} /\ phase = "normal" /\ nops < MaxOps /\ LinkUp /\ outOpen
+\* the child writes p (ending in the text the call waits for); the awaited call takes in all that is readable, matches
+\* and pauses the transport
+ARead(p) ==
+  /\ AsyncOK
+  /\ LET new == <<<<"o", N, p>>>>
+         S   == TakeIn(Cur, kq \o new)
+     IN Commit(S, Call("aread", <<p>>, ""), None, pend \o kq \o new, <<>>)
+  /\ rd' = "paused" /\ kq' = <<>> /\ pend' = <<>>
+  /\ UNCHANGED <<phase, peerOpen, link, outOpen, implShut>>
+\* an awaited call that is waiting is cancelled from outside (task.cancel() / asyncio.wait_for around it): what was
+\* readable has been taken in; nobody pauses the transport
+ACancel(how) ==
+  /\ AsyncOK
+  /\ LET S == TakeIn(Cur, kq) IN Commit(S, Call("acancel", <<>>, how), None, <<>>, <<>>)
+  /\ rd' = "reading" /\ pend' = pend \o kq /\ kq' = <<>>
+  /\ UNCHANGED <<phase, peerOpen, link, outOpen, implShut>>
+\* an awaited call runs into its own timeout: TIMEOUT, the transport is paused, nothing is consumed
+ATimeout ==
+  /\ AsyncOK
+  /\ LET S == TakeIn(Cur, kq) IN Commit(S, Call("atimeout", <<>>, ""), None, <<>>, <<>>)
+  /\ rd' = "paused" /\ pend' = pend \o kq /\ kq' = <<>>
+  /\ UNCHANGED <<phase, peerOpen, link, outOpen, implShut>>
+\* the child writes p while no call is waiting: a transport that is reading hands it to the object at once
+\* (data_received with the future already done: logged, appended to the buffer); otherwise it stays in the kernel
+Arrive(p) ==
+  /\ AsyncOK /\ Len(kq) + Len(pend) < MaxCarry
+  /\ LET new == <<<<"o", N, p>>>> IN
+     IF rd = "reading"
+     THEN /\ LET S0 == [Cur EXCEPT !.tk = @ \o new]
+                 S  == IF Bug \in {"latenotlogged", "readnotlogged"} THEN S0 ELSE Log(S0, "read", new, ApiType)
+             IN Commit(S, Call("arrive", <<p>>, ""), None, <<>>, <<>>)
+          /\ pend' = pend \o new /\ kq' = kq
+     ELSE /\ Commit(Cur, Call("arrive", <<p>>, ""), None, <<>>, <<>>)
+          /\ kq' = kq \o new /\ pend' = pend
+  /\ UNCHANGED <<phase, peerOpen, link, outOpen, implShut, rd>>
 
 Init == /\ mode \in Modes /\ logcfg \in LogCfgs
         /\ phase = "normal" /\ peerOpen = TRUE /\ encBom = FALSE /\ bom0 = FALSE /\ nops = 0 /\ asked = <<>>
         /\ peerGot = <<>> /\ userGot = <<>> /\ logSend = <<>> /\ logRead = <<>> /\ logAll = <<>>
         /\ writes = Zero /\ flushes = Zero /\ delivered = <<>> /\ ret = None
+        /\ link = "up" /\ outOpen = TRUE /\ implShut = "no" /\ rd = "none"
+        /\ kq = <<>> /\ pend = <<>> /\ kq0 = <<>> /\ pend0 = <<>>
+        /\ sockTmo \in (IF Env /\ Transport = "socket" THEN {"none", "user"} ELSE {"none"})
 
 Next == \/ \E p \in Payloads : Send(p) \/ SendLine(p) \/ Write(p)
         \/ \E ps \in Lists : WriteLines(ps)
@@ -192,6 +335,12 @@ Next == \/ \E p \in Payloads : Send(p) \/ SendLine(p) \/ Write(p)
         \/ \E p \in ReadPayloads : ReadDelivered(p)
         \/ EnterInteract \/ ExitInteract
         \/ \E p \in KeyPayloads : InteractCopyOut(p) \/ InteractCopyIn(p)
+        \/ \E t \in {"zero", "small"} : ReadTimeout(t)
+        \/ HalfCloseEof \/ PeerGone \/ CloseSelf
+        \/ \E op \in {"send", "sendline", "write", "writelines"} : Stalled(op, "big")
+        \/ \E p \in ReadPayloads : ARead(p) \/ Arrive(p)
+        \/ \E how \in {"cancel", "waitfor"} : ACancel(how)
+        \/ ATimeout
 
 Spec == Init /\ [][Next]_vars
 
@@ -204,7 +353,20 @@ AskedToSend(a) ==
     [] a.op \in {"control", "eof", "intr"} -> IF Transport = "pty" THEN <<<<"c", a.n, a.c>>>> ELSE <<>>
     [] a.op = "copyin" -> <<<<"k", a.n, a.ps[1]>>>>
     [] OTHER -> <<>>
-FromChild(a) == IF a.op \in {"read", "copyout"} THEN <<<<"o", a.n, a.ps[1]>>>> ELSE <<>>
+\* child output the object took in during the call (ghost of the data path, not of the logging)
+FromChild(a) == IF a.op \in {"read", "copyout", "aread", "acancel", "atimeout", "arrive"} THEN a.tk ELSE <<>>
+\* what the child wrote during the call
+Arrived(a) == IF a.op \in {"read", "copyout", "aread", "arrive"} THEN <<<<"o", a.n, a.ps[1]>>>> ELSE <<>>
+\* what the send log must hold for the call: all of it - for a call that failed, what the code handed to the log,
+\* which FailedSendLogged constrains
+LoggedOf(a) == IF a.fail = "no" THEN AskedToSend(a) ELSE a.lg
+IsPrefix(u, v) == Len(u) <= Len(v) /\ u = SubSeq(v, 1, Len(u))
+RECURSIVE NoBom(_)
+NoBom(w) == IF w = <<>> THEN <<>> ELSE (IF Head(w)[1] = "bom" THEN <<>> ELSE <<Head(w)>>) \o NoBom(Tail(w))
+\* the items of which at least a part may have reached the peer
+RECURSIVE Touched(_)
+Touched(w) == IF w = <<>> THEN <<>>
+              ELSE (IF Head(w)[1] = "part" THEN NoBom(Head(w)[2]) ELSE IF Head(w)[1] = "bom" THEN <<>> ELSE <<Head(w)>>) \o Touched(Tail(w))
 UsesEncoder(a) == a.op \in {"send", "write", "sendline"} \/ (a.op = "writelines" /\ a.ps # <<>>)
 
 \* the encoded concatenation: a byte-order mark once, at the start of the encoder's life
@@ -213,17 +375,19 @@ Encoded(as, b) ==
   IF as = <<>> THEN <<>>
   ELSE LET a == Head(as)
            m == IF mode = "utf16" /\ ~b /\ UsesEncoder(a) THEN <<<<"bom">>>> ELSE <<>>
-       IN m \o AskedToSend(a) \o Encoded(Tail(as), b \/ UsesEncoder(a))
-Both(a) == AskedToSend(a) \o FromChild(a)
+       IN (IF a.fail = "no" THEN m \o AskedToSend(a) ELSE a.rch) \o Encoded(Tail(as), b \/ UsesEncoder(a))
+Both(a) == LoggedOf(a) \o FromChild(a)
 RECURSIVE FlatSend(_)
-FlatSend(as) == IF as = <<>> THEN <<>> ELSE AskedToSend(Head(as)) \o FlatSend(Tail(as))
+FlatSend(as) == IF as = <<>> THEN <<>> ELSE LoggedOf(Head(as)) \o FlatSend(Tail(as))
 RECURSIVE FlatRead(_)
 FlatRead(as) == IF as = <<>> THEN <<>> ELSE FromChild(Head(as)) \o FlatRead(Tail(as))
 RECURSIVE FlatBoth(_)
 FlatBoth(as) == IF as = <<>> THEN <<>> ELSE Both(Head(as)) \o FlatBoth(Tail(as))
-RECURSIVE FlatDelivered(_)
-FlatDelivered(as) == IF as = <<>> THEN <<>>
-                     ELSE (IF Head(as).op = "read" THEN FromChild(Head(as)) ELSE <<>>) \o FlatDelivered(Tail(as))
+RECURSIVE FlatArrived(_)
+FlatArrived(as) == IF as = <<>> THEN <<>> ELSE Arrived(Head(as)) \o FlatArrived(Tail(as))
+RECURSIVE FlatToMatching(_)     \* taken in for matching (interact() shows its output to the user instead)
+FlatToMatching(as) == IF as = <<>> THEN <<>>
+                      ELSE (IF Head(as).op = "copyout" THEN <<>> ELSE FromChild(Head(as))) \o FlatToMatching(Tail(as))
 Items(log) == [i \in 1..Len(log) |-> log[i].it]
 Dirs(log)  == [i \in 1..Len(log) |-> log[i].d]
 DirOf(it)  == IF it[1] = "o" THEN "read" ELSE "send"
@@ -233,16 +397,32 @@ PeerGotExactly == peerGot = Encoded(asked, bom0)
 LastOp == asked[Len(asked)]
 ReturnValue ==
   asked # <<>> =>
-    IF LastOp.op \in {"send", "sendline", "control"}
+    IF LastOp.fail # "no" THEN ret.k = "raised"
+    ELSE IF LastOp.op \in {"send", "sendline", "control"}
     THEN /\ ret.k = "count"
          /\ Len(ret.items) <= Len(peerGot)
          /\ ret.items = SubSeq(peerGot, Len(peerGot) - Len(ret.items) + 1, Len(peerGot))     \* what this call wrote
          /\ ret.items = Encoded(<<LastOp>>, bom0 \/ \E i \in 1..(Len(asked) - 1) : UsesEncoder(asked[i]))
     ELSE ret.k = "none"
+\* a send-family call fails only when the environment makes it fail: the peer is gone, the caller closed the
+\* object, the peer stopped reading (everything handed to send reaches a peer that reads - in every history)
+NoSpuriousFailure == \A i \in 1..Len(asked) : asked[i].fail # "spurious"
+\* also of a call that fails nothing else is written: what reached the peer is a prefix of what was asked
+FailedSendPrefix == \A i \in 1..Len(asked) : asked[i].fail # "no" => IsPrefix(Touched(asked[i].rch), AskedToSend(asked[i]))
 \* C11
+\* a call that failed: nothing in the log that was not asked for, an attempted send leaves its trace, and every
+\* piece of which something reached the peer is in the log, completely
+FailedSendLogged ==
+  \A i \in 1..Len(asked) : asked[i].fail # "no" =>
+    /\ IsPrefix(asked[i].lg, AskedToSend(asked[i]))
+    /\ (AskedToSend(asked[i]) # <<>> => asked[i].lg # <<>>)
+    /\ IsPrefix(Touched(asked[i].rch), asked[i].lg)
 LogSendExact == Items(logSend) = IF "send" \in logcfg THEN FlatSend(asked) ELSE <<>>
 LogReadExact == Items(logRead) = IF "read" \in logcfg THEN FlatRead(asked) ELSE <<>>
-DeliveredExact == delivered = FlatDelivered(asked)      \* so the read log is the text matching saw (+ what interact() showed), once, in order
+\* the read log is the text matching is given (+ what interact() showed), once, in order: all the child wrote is
+\* taken in exactly once (or still in the kernel), all that is taken in is handed out exactly once (or still pending)
+TakenExact     == kq0 \o FlatArrived(asked) = FlatRead(asked) \o kq
+DeliveredExact == pend0 \o FlatToMatching(asked) = delivered \o pend
 LogAllInterleaved ==
   /\ Items(logAll) = IF "all" \in logcfg THEN FlatBoth(asked) ELSE <<>>
   /\ \A i \in 1..Len(logAll) : logAll[i].d = DirOf(logAll[i].it)
